@@ -271,6 +271,29 @@ PROPS = {
                        "every descriptor opened by the program or produced by an operation is closed by the time the runtime is gone, every buffer handed to an operation is dropped exactly once, and a zero-copy send returns its buffer only after the notification."),
         "level_note": "Also run under C06 for the descriptor half. UDP / sendmsg control data and connect are not among the actors.",
     },
+    "C02": {
+        "title": "Every operation completes exactly once, with its own result",
+        "engine": "K",
+        "package": "check-k",
+        "bin": "check-k",
+        "design_ref": "§4, §7 C02",
+        "technique": "deterministic simulation with fault injection and a kernel-side ledger: the real runtime and drivers on the simulated io_uring kernel; generated lanes run side by side (concurrent reads on one pipe or Unix socket, concurrent writes on one Unix socket, positional reads/writes on disjoint regions of one file, concurrent metadata calls on files of different lengths, blocking-pool jobs) while the peers' data arrives at generated instants and the kernel decides which pending operation completes when, out of order, with short counts, through submission/completion queues of 1..16 entries (overflow, bursts, lazy discovery, interrupted waits, partial submits); the simulated kernel records for every completion the buffer address, result, a digest of the bytes it moved, its position in the completion order and its time; oracles: one outcome per operation, each outcome equals the ledger's entry for the operation that carried that buffer (count, bytes, buffer identity), bytes per descriptor in kernel completion order are the peer's stream, every lane ends, and an operation finished by the kernel is observed by the program within 300 µs of simulated time; choice-sequence minimisation and replay",
+        "tiers": {
+            "quick": {"runs": 400_000, "time_limit_s": 60},
+            "thorough": {"runs": 100_000_000, "time_limit_s": 1500},
+        },
+        "rule": K_RULE,
+        "real": K_REAL,
+        "stub": K_STUB,
+        "assumptions": K_ASSUME + [
+            "buffer addresses identify operations within a run: freed memory is quarantined for the whole run, so no address is reused",
+            "on polling-driver runs there is no kernel ledger: operations on one descriptor are issued one after the other and the stream, identity, region and job-value oracles apply",
+            "multishot and managed operations are covered by C07 and C14, timers by C09",
+        ],
+        "level_text": ("Seeded exploration of mixes of concurrently pending operations under adversarial completion orders and 1-2 entry queues: no outcome is swapped between operations, duplicated or invented, every buffer comes back to the operation that submitted it with the bytes the kernel moved for it, "
+                       "nothing finished by the kernel is left undelivered or unobserved, and blocking jobs and metadata calls return their own values."),
+        "level_note": "The C14 stream scenario adds every read/write flavour on byte streams; the C01 scenario adds abandoned operations.",
+    },
     "C05": {
         "title": "Cancellation is prompt, honest and local",
         "engine": "K",
